@@ -457,6 +457,23 @@ func (p *ProvCase) leftAlone() bool {
 	return okEnable && okExecute
 }
 
+// ancestors are the stages from which st can be reached along the lifecycle's NextStages edges.
+func (p *ProvCase) ancestors(st string) map[string]bool {
+	out := map[string]bool{}
+	var walk func(s string)
+	walk = func(s string) {
+		for from, succ := range p.next {
+			if succ[s] && !out[from] {
+				out[from] = true
+				walk(from)
+			}
+		}
+	}
+	walk(st)
+	delete(out, st)
+	return out
+}
+
 type provModelState struct {
 	provided string // sorted list of stages whose input was accepted
 }
@@ -491,9 +508,11 @@ func lifecycleOracle(c *Case, r *harness.Result) []Violation {
 	impossible := map[string]bool{}
 	entered := map[string]bool{}
 	current := ""
+	firstStage := ""
 	if p.Kind == "foreach" {
 		current = "enabling" // a loop step is born in its first stage and never announces entering it
 		entered[current] = true
+		firstStage = current
 	}
 	currentFailed := false
 	completes := 0
@@ -541,6 +560,9 @@ func lifecycleOracle(c *Case, r *harness.Result) []Violation {
 				add("unknown-stage", stage, "stage %q is not in the lifecycle", stage)
 			}
 			entered[stage] = true
+			if firstStage == "" {
+				firstStage = stage
+			}
 			current = stage
 			currentFailed = false
 		case "complete":
@@ -574,6 +596,37 @@ func lifecycleOracle(c *Case, r *harness.Result) []Violation {
 		}
 		if impossible[st] {
 			add("finished-and-impossible", st, "stage %q was reported both finished and impossible: %s", st, hist())
+		}
+	}
+	if r.Outcome == "completed" && completes == 1 {
+		// a path does not jump: once a stage has been decided (left, or declared impossible), every stage
+		// it can only be reached through has been decided too
+		var undecided []string
+		// (stages that cannot be reached from the stage the step started in - the cancelled stage, which
+		// only takes the stop input - are not on any path)
+		onPath := map[string]bool{firstStage: true}
+		var reach func(s string)
+		reach = func(s string) {
+			for n := range p.next[s] {
+				if !onPath[n] {
+					onPath[n] = true
+					reach(n)
+				}
+			}
+		}
+		reach(firstStage)
+		for st := range p.stages {
+			if finished[st] > 0 || impossible[st] {
+				for anc := range p.ancestors(st) {
+					if onPath[anc] && finished[anc] == 0 && !impossible[anc] {
+						undecided = append(undecided, anc+" before "+st)
+					}
+				}
+			}
+		}
+		sort.Strings(undecided)
+		if len(undecided) > 0 {
+			add("stage-skipped", undecided[0], "the step completed with stages decided whose predecessors were neither left nor declared impossible (%s): %s", strings.Join(undecided, ", "), hist())
 		}
 	}
 	if r.Outcome == "completed" && p.Kind == "foreach" {
